@@ -347,3 +347,5 @@ func writeCases(c Ctx, rep *report.Report, name, imports, body string) {
 	}
 	rep.CaseFiles = append(rep.CaseFiles, p)
 }
+
+func itoa(i int) string { return fmt.Sprint(i) }
